@@ -21,6 +21,199 @@ def orders(chk):
     return I.load_layout_tables(chk)
 
 
+# ------------------------------------------------------------------ engine C with a few more transfer functions
+class IS2(IS):
+    """engine C (ispace.IS) plus the typing of forms met in refactored code: a literal slice of a per-axis layout table
+    (`layout.shape[:3]`), the bounds of the range of global indices (`getGlobalIdxVals(k).start`), np.broadcast_to (an array of the
+    stated shape), list(zip(...)) of typed arrays, and same-class helper methods analysed with this class"""
+
+    def ev_Subscript(self, e):
+        if isinstance(e.slice, ast.Slice) and e.slice.step is None:
+            base = self.ev(e.value)
+            if isinstance(base, tuple) and isinstance(base[0], str) and base[0].startswith(("layout.", "grid.")):
+                attr = base[0].split(".", 1)[1]
+                order = base[1][1]
+                lo = self.ev(e.slice.lower) if e.slice.lower is not None else ("lit", None)
+                hi = self.ev(e.slice.upper) if e.slice.upper is not None else ("lit", None)
+                kind = {"starts": lambda d: ("start", d), "ends": lambda d: ("end", d), "shape": lambda d: ("size", L(d)),
+                        "max_block_shape": lambda d: ("size", ("Lmax", d)), "fullShape": lambda d: ("size", G(d))}.get(attr)
+                if kind and order is not None and all(isinstance(x, tuple) and x[0] == "lit" for x in (lo, hi)):
+                    t = [kind(d) for d in list(order)[slice(lo[1], hi[1])]]
+                    self.node_tags[id(e)] = t
+                    return t
+        return IS.ev_Subscript(self, e)
+
+    def ev_Attribute(self, e):
+        if e.attr in ("start", "stop") and not (isinstance(e.value, ast.Name) and e.value.id == "self"):
+            base = self.ev(e.value)
+            # the global indices of a block are the contiguous range [start, end) of that dimension
+            if is_arr_(base) and len(base[1]) == 1 and base[1][0] is not None and base[1][0][0] == "L" and base[2] == ("gidx", base[1][0][1]):
+                return ("start" if e.attr == "start" else "end", base[1][0][1])
+        return IS.ev_Attribute(self, e)
+
+    def stmt(self, st):
+        if isinstance(st, ast.For):
+            it = self.ev(st.iter)
+            w = it[1][0] if I.is_arr(it) and len(it[1]) == 1 else None
+            self.__dict__.setdefault("iter_windows", []).append(w)
+            try:
+                return IS.stmt(self, st)
+            finally:
+                self.iter_windows.pop()
+        return IS.stmt(self, st)
+
+    def ev_Call(self, e):
+        f = e.func
+        name = f.attr if isinstance(f, ast.Attribute) else f.id if isinstance(f, ast.Name) else ""
+        if name == "append" and isinstance(f, ast.Attribute) and len(e.args) == 1 and len(getattr(self, "iter_windows", [])) == 1 \
+                and self.iter_windows[0] is not None:
+            # a list that starts empty and gets one entry per element of a typed array is a table over that array's index range
+            cur = self.ev(f.value)
+            self.ev(e.args[0])
+            if cur == [] or (I.is_arr(cur) and cur[1] == (self.iter_windows[0],)):
+                t = arr((self.iter_windows[0],), None)
+                if isinstance(f.value, ast.Attribute) and isinstance(f.value.value, ast.Name) and f.value.value.id == "self":
+                    self.attrs[f.value.attr] = t
+                elif isinstance(f.value, ast.Name):
+                    self.env[f.value.id] = t
+            return OTHER
+        if name == "broadcast_to" and isinstance(f, ast.Attribute) and isinstance(f.value, ast.Name) and f.value.id in ("np", "numpy") \
+                and len(e.args) == 2 and not e.keywords:
+            a0 = self.ev(e.args[0])
+            shp = self.ev(e.args[1])
+            if isinstance(shp, list):
+                return arr(tuple(s_[1] if isinstance(s_, tuple) and s_[0] == "size" else (I.UNIT if s_ == ("lit", 1) else I.STENCIL) for s_ in shp),
+                           a0[2] if is_arr_(a0) else None)
+            return OTHER
+        if name == "list" and isinstance(f, ast.Name) and len(e.args) == 1 and not e.keywords:
+            return self.ev(e.args[0])
+        if isinstance(f, ast.Attribute) and isinstance(f.value, ast.Name) and f.value.id == "self" and name in self.methods \
+                and name not in self.summaries and self.depth < 3:
+            args = [self.ev(a) for a in e.args]
+            kw = {k.arg: self.ev(k.value) for k in e.keywords}
+            m = self.methods[name]
+            ps = [a.arg for a in m.args.args if a.arg != "self"]
+            env = dict(zip(ps, args))
+            env.update(kw)
+            sub = IS2(self.chk, self.rel, self.q.split(".")[0] + "." + name, m, env, self.ctx, self.attrs, self.summaries)
+            sub.methods = self.methods
+            sub.depth = self.depth + 1
+            sub.run()
+            self.nobs += sub.nobs
+            self.chk.functions.add(f"{self.rel}:{sub.q}")
+            return getattr(sub, "ret", OTHER)
+        return IS.ev_Call(self, e)
+
+
+def is_arr_(t):
+    return I.is_arr(t)
+
+
+def ctor_attrs(chk, rel, cls, env, ctx=None):
+    """attribute tags established by cls.__init__ (same-class helper methods are inlined)"""
+    attrs = {}
+    fn = chk.mod(rel).func(f"{cls}.__init__")
+    chk.functions.add(f"{rel}:{cls}.__init__")
+    a = IS2(chk, rel, f"{cls}.__init__", fn, env, ctx or Ctx(dist_dims=None), attrs)
+    a.methods = I.class_methods(chk, rel, cls)
+    a.run()
+    return attrs, a
+
+
+def summary_of(chk, rel, cls, mname, attrs, ctx, env_extra=None):
+    """required index tags of the parameters of a per-slice method (from its own table look-ups)"""
+    fn = chk.mod(rel).func(f"{cls}.{mname}")
+    env = {a.arg: ("param", a.arg) for a in fn.args.args if a.arg != "self"}
+    env.update(env_extra or {})
+    a = IS2(chk, rel, f"{cls}.{mname}", fn, env, ctx, attrs)
+    a.run()
+    req = {}
+    for p, reqs in a.param_req.items():
+        ts = {t for t, _, _ in reqs}
+        if len(ts) == 1:
+            req[p] = next(iter(ts))
+        elif ts:
+            req[p] = sorted(ts)[0]
+    params = [x.arg for x in fn.args.args if x.arg != "self"]
+    return {"params": params, "req": req}, a
+
+
+def run_method(chk, rel, cls, mname, env, ctx, attrs, summaries=None):
+    fn = chk.mod(rel).func(f"{cls}.{mname}" if cls else mname)
+    q = f"{cls}.{mname}" if cls else mname
+    chk.functions.add(f"{rel}:{q}")
+    a = IS2(chk, rel, q, fn, env, ctx, attrs, summaries or {})
+    if cls:
+        a.methods = {k: v for k, v in I.class_methods(chk, rel, cls).items() if k not in (summaries or {})}
+    a.run()
+    return a
+
+
+# ------------------------------------------------------------------ structured form of early exits
+def _own_continue(stmts):
+    """does a `continue` of the enclosing loop occur in these statements (nested loops keep theirs)?"""
+    stack = list(stmts)
+    while stack:
+        n = stack.pop()
+        if isinstance(n, ast.Continue):
+            return True
+        if isinstance(n, (ast.For, ast.While, ast.FunctionDef, ast.ClassDef, ast.Lambda)):
+            continue
+        stack.extend(ch for ch in ast.iter_child_nodes(n) if isinstance(ch, (ast.stmt, ast.excepthandler)))
+    return False
+
+
+def _absorb_continue(stmts):
+    """loop body without `continue`: `if c: A; continue` followed by R is `if c: A else: R` (the statements after a
+    conditional that may continue are moved into the arms that fall through); None when an exit sits where it cannot be
+    absorbed (inside with/try)"""
+    from ..core import clone
+    out = []
+    for k, st in enumerate(stmts):
+        if isinstance(st, ast.Continue):
+            return out
+        if isinstance(st, ast.If) and _own_continue([st]):
+            rest = list(stmts[k + 1:])
+            body = _absorb_continue(list(st.body) + rest)
+            orelse = _absorb_continue(list(st.orelse) + clone(rest))
+            if body is None or orelse is None:
+                return None
+            new = ast.If(test=st.test, body=body or [ast.copy_location(ast.Pass(), st)], orelse=orelse)
+            out.append(ast.copy_location(new, st))
+            return out
+        if _own_continue([st]):
+            return None
+        out.append(st)
+    return out
+
+
+def structured(fn):
+    """private copy of `fn` in which the bodies of loops contain no `continue` (same behaviour, if/else form); the function itself
+    when it has none.  Returns (function, reason why some loop was left as it is or None)"""
+    from ..core import clone
+    if not any(isinstance(n, ast.Continue) for n in ast.walk(fn)):
+        return fn, None
+    par = parent(fn)
+    new = clone(fn)
+    why = None
+    loops = [n for n in ast.walk(new) if isinstance(n, (ast.For, ast.While))]
+    for lp in reversed(loops):       # inner loops first
+        if _own_continue(lp.body):
+            b = _absorb_continue(lp.body)
+            if b is None:
+                why = f"`continue` inside a with/try block of the loop at line {lp.lineno}"
+            else:
+                lp.body = b or [ast.copy_location(ast.Pass(), lp)]
+    ast.fix_missing_locations(new)
+    for n in ast.walk(new):
+        for ch in ast.iter_child_nodes(n):
+            ch._parent = n
+    new._parent = par
+    if hasattr(fn, "_qual"):
+        new._qual = fn._qual
+    return new, why
+
+
 def class_chain(chk, rel, cls):
     """the class and its base classes defined in the same module, most derived first"""
     mod = chk.mod(rel)
@@ -62,23 +255,31 @@ def resolve_method(chk, rel, cls, name):
 def parallel_gradient(chk):
     """ParallelGradient: tables built in __init__, looked up in parallel_gradient(phi_r, i, der)"""
     env = {"eta_grid": eta_grid_tag(), "layout": layout_param(), "constants": ("constants",), "order": OTHER, "spline": OTHER}
-    attrs, _ = I.ctor_attrs(chk, U.ADV, "ParallelGradient", env)
-    summ, a = I.summary_of(chk, U.ADV, "ParallelGradient", "parallel_gradient", dict(attrs), Ctx(dist_dims={0}))
+    attrs, _ = ctor_attrs(chk, U.ADV, "ParallelGradient", env)
+    summ, a = summary_of(chk, U.ADV, "ParallelGradient", "parallel_gradient", dict(attrs), Ctx(dist_dims={0}))
+    idxp = [p_ for p_ in summ["params"] if isinstance(summ["req"].get(p_), tuple) and summ["req"][p_][0] in ("lidx", "gidx")]
+    chk.ob("C-table-roles", chk.func(U.ADV, "ParallelGradient.parallel_gradient"), f"parallel_gradient({', '.join(summ['params'])})",
+           True if idxp else None,
+           "; ".join(f"`{p_}` must be {tname(summ['req'][p_])}" for p_ in idxp) + ": it selects the rows of the per-radius tables "
+           f"{sorted(k for k, v in attrs.items() if I.is_arr(v))} (callers are checked against this: C-slice-param)" if idxp else
+           "no parameter of parallel_gradient is typed as the index of its per-radius tables: the radial look-ups were not followed "
+           f"(tables: { {k: tname(v) for k, v in attrs.items() if I.is_arr(v)} })", file=U.ADV, func="ParallelGradient.parallel_gradient")
     return attrs, summ
 
 
 def flux_surface(chk):
     env = {"eta_grid": eta_grid_tag(), "layout": layout_param(), "constants": ("constants",), "dt": OTHER,
            "splines": OTHER, "zDegree": OTHER}
-    attrs, _ = I.ctor_attrs(chk, U.ADV, "FluxSurfaceAdvection", env)
-    summ, _ = I.summary_of(chk, U.ADV, "FluxSurfaceAdvection", "step", dict(attrs), Ctx(dist_dims={0, 3}))
+    attrs, _ = ctor_attrs(chk, U.ADV, "FluxSurfaceAdvection", env)
+    summ, _ = summary_of(chk, U.ADV, "FluxSurfaceAdvection", "step", dict(attrs), Ctx(dist_dims={0, 3}))
     req = summ["req"]
-    ok = req.get("cIdx") == ("lidx", 3) and req.get("rIdx") == ("lidx", 0)
-    if not ok and (req.get("cIdx") is None or req.get("rIdx") is None):
-        ok = None        # the look-ups of step were not followed: nothing is known about the roles
-    chk.ob("C-table-roles", chk.func(U.ADV, "FluxSurfaceAdvection.step"), "step(f, cIdx, rIdx)", ok,
-           "the shift/coefficient tables are [local r, local v, stencil]; cIdx is the local v index, rIdx the local r index"
-           if ok else f"unexpected index requirements of step: { {k: tname(v) for k, v in req.items()} } "
+    # which index space each parameter of step must be in follows from the tables it subscripts; whether the callers hand over values of
+    # these spaces is rule C-slice-param at each call (a consistent change of convention on both sides holds)
+    typed = all(isinstance(req.get(p_), tuple) and req[p_][0] in ("lidx", "gidx") for p_ in ("cIdx", "rIdx"))
+    chk.ob("C-table-roles", chk.func(U.ADV, "FluxSurfaceAdvection.step"), "step(f, cIdx, rIdx)", True if typed else None,
+           f"the tables step looks up are { {k: tname(v) for k, v in attrs.items() if I.is_arr(v) and k != '_LagrangeVals'} }: cIdx must be "
+           f"{tname(req['cIdx'])}, rIdx {tname(req['rIdx'])}" if typed else
+           f"index requirements of step not established: { {k: tname(v) for k, v in req.items()} } "
            f"(tables: { {k: tname(v) for k, v in attrs.items() if I.is_arr(v)} })", file=U.ADV, func="FluxSurfaceAdvection.step")
     fn = chk.func(U.ADV, "FluxSurfaceAdvection.gridStep")
     amb = I.ambient_from_asserts(fn)
@@ -86,7 +287,9 @@ def flux_surface(chk):
     if o is None:
         raise AnalysisError("C05: FluxSurfaceAdvection.gridStep no longer asserts its layout")
     ctx = Ctx(dist_dims=dist_dims(o, 2))
-    I.run_method(chk, U.ADV, "FluxSurfaceAdvection", "gridStep", {"grid": grid_param(o, 2)}, ctx, dict(attrs), {"step": summ})
+    an = run_method(chk, U.ADV, "FluxSurfaceAdvection", "gridStep", {"grid": grid_param(o, 2)}, ctx, dict(attrs), {"step": summ})
+    index_agreement(chk, an, fn, U.ADV, "FluxSurfaceAdvection.gridStep")
+    local_extent_dependence(chk, an, fn, U.ADV, "FluxSurfaceAdvection.gridStep")
     return attrs, summ, o
 
 
@@ -99,12 +302,13 @@ def v_parallel(chk, pg_summ):
     pgv = None
     for n in ast.walk(dfn):
         if isinstance(n, ast.Assign) and isinstance(n.targets[0], ast.Name) and n.targets[0].id == "parGradVals":
-            a = IS(chk, U.DRIVER, "main", dfn, {"distribFunc": grid_param(o_grid, 2), "constants": ("constants",)}, ctx, {})
+            a = IS2(chk, U.DRIVER, "main", dfn, {"distribFunc": grid_param(o_grid, 2), "constants": ("constants",)}, ctx, {})
             pgv = a.ev(n.value)
-            okw = (pgv[1] == (L(0), G(2), G(1))) if I.is_arr(pgv) and all(w is not None and w[0] in ("G", "L") for w in pgv[1]) else None
+            okw = True if I.is_arr(pgv) and all(w is not None and w[0] in ("G", "L") for w in pgv[1]) else None
+            pgv_node = n
             chk.ob("C-table-roles", n, "parGradVals = np.empty([...])", okw,
-                   "parallel-gradient table is [local r, global z, global theta]" if okw else
-                   f"unexpected table signature {tname(pgv)}", file=U.DRIVER, func="main")
+                   f"parallel-gradient table is {tname(pgv)} (its readers and its writer are typed against these axes)" if okw else
+                   f"axes of the table not established: {tname(pgv)}", file=U.DRIVER, func="main")
     if pgv is None:
         raise AnalysisError("C05: allocation of parGradVals not found in fullSimulation.main")
     step_summ = {"params": ["f", "dt", "c", "r"], "req": {}}
@@ -113,26 +317,53 @@ def v_parallel(chk, pg_summ):
         fn = chk.func(U.ADV, f"VParallelAdvection.{m}")
         env = {"grid": grid_param(o_grid, 2), "phi": grid_param(o_phi, 1), "parGradVals": pgv,
                "parGrad": ("obj", "ParallelGradient"), "dt": OTHER}
-        a = IS(chk, U.ADV, f"VParallelAdvection.{m}", fn, env, ctx, {}, {"step": step_summ})
+        a = IS2(chk, U.ADV, f"VParallelAdvection.{m}", fn, env, ctx, {}, {"step": step_summ})
         a.obj_summaries = {("ParallelGradient", "parallel_gradient"): pg_summ}
         chk.functions.add(f"{U.ADV}:VParallelAdvection.{m}")
         a.run()
+        index_agreement(chk, a, fn, U.ADV, f"VParallelAdvection.{m}")
+        local_extent_dependence(chk, a, fn, U.ADV, f"VParallelAdvection.{m}")
         analyses[m] = a
     radius_argument(chk, analyses)
     gradient_out_param(chk)
+    out_array_axes(chk, analyses["gridStep"])
     return pgv
+
+
+def out_array_axes(chk, a):
+    """writer side of the gradient table: parallel_gradient fills its output array row for row like its input (it asserts equal shapes), so
+    the block of the table handed in must have the axes of the potential slice handed in"""
+    fn = a.fn
+    pgf = chk.func(U.ADV, "ParallelGradient.parallel_gradient")
+    params = [x.arg for x in pgf.args.args if x.arg != "self"]
+    for c in ast.walk(fn):
+        if isinstance(c, ast.Call) and isinstance(c.func, ast.Attribute) and c.func.attr == "parallel_gradient":
+            b = agree.bind_call(c, params) or {}
+            if len(params) < 3 or params[0] not in b or params[2] not in b:
+                continue
+            tin, tout = a.node_tags.get(id(b[params[0]])), a.node_tags.get(id(b[params[2]]))
+            known = I.is_arr(tin) and I.is_arr(tout) and all(w is not None and w[0] in ("G", "L") for w in tin[1] + tout[1])
+            same = known and tuple(tin[1]) == tuple(tout[1])
+            chk.ob("C-window", c, f"parallel_gradient({src(b[params[0]])[:40]}, ..., {src(b[params[2]])[:30]}): axes in = axes out",
+                   (True if same else False) if known else None,
+                   f"input slice and output block are both {tname(tin)}" if same else
+                   (f"the potential slice handed in is {tname(tin)} but the block of the table that receives the gradient is {tname(tout)}: "
+                    "parallel_gradient writes row k of its result for row k of its input, so the rows of the table do not hold the gradient at "
+                    "their own (z, theta)" if known else f"axes not established: input {tname(tin) if tin else '?'}, output {tname(tout) if tout else '?'}"),
+                   file=U.ADV, func=getattr(fn, "_qual", "VParallelAdvection.gridStep"))
 
 
 def gradient_out_param(chk):
     """gridStep fills parGradVals[i] through parallel_gradient's output argument and gridStepKeepGradient reads the table later:
     the array handed in must end up holding the very value the function returns"""
-    gs = chk.func(U.ADV, "VParallelAdvection.gridStep")
+    gs, unstructured = structured(chk.func(U.ADV, "VParallelAdvection.gridStep"))
     pgf = chk.func(U.ADV, "ParallelGradient.parallel_gradient")
     params = [a.arg for a in pgf.args.args if a.arg != "self"]
     calls = [c for c in ast.walk(gs) if isinstance(c, ast.Call) and isinstance(c.func, ast.Attribute) and c.func.attr == "parallel_gradient"]
     if len(calls) != 1:
         raise AnalysisError("C05/C11: the parallel_gradient call of VParallelAdvection.gridStep not found")
     b = agree.bind_call(calls[0], params) or {}
+    row_always_written(chk, gs, calls[0], unstructured)
     out = [p_ for p_, a in b.items() if isinstance(a, ast.Subscript) and src(a.value) == "parGradVals"]
     if len(out) != 1:
         chk.ob("E2-gradient-out-param", calls[0], "parGradVals[i] handed to parallel_gradient as output array", None,
@@ -152,11 +383,380 @@ def gradient_out_param(chk):
            file=U.ADV, func="ParallelGradient.parallel_gradient")
 
 
+def row_always_written(chk, gs, call, unstructured):
+    """writer/reader agreement on the rows of the gradient table: gridStepKeepGradient reads parGradVals[i] for every local radius, so
+    gridStep has to write that row in every iteration of its loop over the radii, whatever the data"""
+    q = "VParallelAdvection.gridStep"
+    label = "parGradVals[i] is written for every local radius (read again by gridStepKeepGradient)"
+    conds, loops, odd = [], [], None
+    ch, p_ = call, parent(call)
+    while p_ is not None and p_ is not gs:
+        if isinstance(p_, ast.If):
+            conds.append((p_, ch in p_.body if isinstance(ch, ast.stmt) else None))
+        elif isinstance(p_, ast.For):
+            loops.append(p_)
+        elif isinstance(p_, (ast.While, ast.Try, ast.With, ast.IfExp, ast.FunctionDef, ast.Lambda)):
+            odd = p_
+        if isinstance(p_, ast.stmt):
+            ch = p_
+        p_ = parent(p_)
+    st = call
+    while not isinstance(st, ast.stmt):
+        st = parent(st)
+    # exits before the call in the loop body (structured form has no `continue` left)
+    early = None
+    for lp in loops:
+        for n in ast.walk(lp):
+            if isinstance(n, (ast.Break, ast.Return, ast.Continue, ast.Raise)) and (n.lineno, n.col_offset) < (st.lineno, st.col_offset):
+                early = n
+    if unstructured or odd is not None or early is not None or any(pol is None for _, pol in conds):
+        what = unstructured or (f"`{src(early)}` before the call" if early is not None else f"the call sits in `{src(odd).splitlines()[0][:50]}`"
+                                if odd is not None else "condition not followed")
+        chk.ob("E2-gradient-row-written", call, label, None, f"control flow around the parallel_gradient call not followed: {what}",
+               file=U.ADV, func=q)
+        return
+    if not conds:
+        chk.ob("E2-gradient-row-written", call, label, True,
+               "the call that fills parGradVals[i] is executed unconditionally in every iteration of the loop over the local radii: the rows "
+               "gridStepKeepGradient reads are the gradient of the potential handed to this gridStep", file=U.ADV, func=q)
+        return
+
+    def writes_table(stmts):
+        for s_ in stmts:
+            for n in ast.walk(s_):
+                t = n.targets[0] if isinstance(n, ast.Assign) else n.target if isinstance(n, ast.AugAssign) else None
+                while isinstance(t, ast.Subscript):
+                    t = t.value
+                if isinstance(t, ast.Name) and t.id == "parGradVals":
+                    return True
+                if isinstance(n, ast.Call) and any(isinstance(x, ast.Name) and x.id == "parGradVals" for a in n.args for x in ast.walk(a)) and n is not call:
+                    return True
+        return False
+    node, pol = conds[-1]
+
+    def neg(t):
+        return src(t.operand) if isinstance(t, ast.UnaryOp) and isinstance(t.op, ast.Not) else f"not ({src(t)})"
+    cond = src(node.test) if pol else neg(node.test)
+    skip = neg(node.test) if pol else src(node.test)
+    # does the condition vary from one radius to the next?  (names bound by the loop over the radii or assigned inside it)
+    per_iter = set()
+    for lp in loops:
+        per_iter |= {x.id for x in ast.walk(lp.target) if isinstance(x, ast.Name)}
+        per_iter |= {x.id for s_ in lp.body for x in ast.walk(s_) if isinstance(x, ast.Name) and isinstance(x.ctx, ast.Store)}
+    varying = [n_ for n_, _ in conds if any(isinstance(x, ast.Name) and x.id in per_iter for x in ast.walk(n_.test))]
+    if not varying:
+        chk.ob("E2-gradient-row-written", node, label, None,
+               f"the parallel_gradient call runs only when `{cond}`, a condition that does not change from one radius to the next: whether "
+               "gridStepKeepGradient is ever used with a table left unwritten is not decided", file=U.ADV, func=q)
+        return
+    if any(writes_table(n_.orelse if pl else n_.body) for n_, pl in conds):
+        chk.ob("E2-gradient-row-written", node, label, None,
+               f"the parallel_gradient call runs only when `{cond}`; the other path stores into parGradVals itself: equality of that value "
+               "with the gradient is not decided", file=U.ADV, func=q)
+        return
+    chk.ob("E2-gradient-row-written", node, label, False,
+           f"parGradVals[i] is filled by parallel_gradient only when `{cond}`; when `{skip}` the iteration leaves the row untouched. "
+           "gridStepKeepGradient (called after gridStep in the time step) reads parGradVals[i, J, k] for every local radius: for the skipped "
+           "radii it advects with the gradient of an earlier potential, or with the uninitialised content of np.empty on first use",
+           file=U.ADV, func=q)
+
+
 class _Mute:
     functions = set()
 
     def ob(self, *a, **k):
         pass
+
+
+def coordinate_of_slice(a, fn, at, expr, sel, d):
+    """is `expr` (typed as a coordinate along dimension d) the coordinate at the index `sel` that selects the slice?
+    -> (True / False / None, diagnosis or None)"""
+    dn = I.DIMNAMES.get(d, d)
+    if isinstance(expr, ast.Subscript) and not isinstance(expr.slice, (ast.Slice, ast.Tuple)):
+        tX, te = a.node_tags.get(id(expr.value)), a.node_tags.get(id(expr.slice))
+        w = tX[1][0] if I.is_arr(tX) and len(tX[1]) == 1 else None
+        if w is None or w[0] not in ("G", "L"):
+            return None, f"`{src(expr.value)}` is not typed as a coordinate table of {dn}"
+        if not a.ctx.distributed(d):
+            return True, None
+        kind = te[0] if isinstance(te, tuple) and te[0] in ("lidx", "gidx") and te[1] == d else None
+        if kind is None and sel is not None and src(sel) == src(expr.slice):
+            kind = "lidx"          # the same value selects the local slice
+        if kind is None:
+            return None, f"index space of `{src(expr.slice)}` in `{src(expr)}` not determined"
+        if (kind == "lidx") == (w[0] == "L"):
+            return True, None
+        return False, (f"`{src(expr)}`: `{src(expr.value)}` holds the {'GLOBAL' if w[0] == 'G' else 'local'} {dn} coordinates but `{src(expr.slice)}` is the "
+                       f"{'local' if kind == 'lidx' else 'global'} index of the line" + (f" (it selects the slice: `{src(parent(sel))[:60]}`)" if sel is not None and parent(sel) is not None else "") +
+                       f": whenever {dn} is distributed the boundary rule receives the radius of another line")
+    if isinstance(expr, ast.Name) and sel is not None:
+        lp = _binding_loop(at, expr)
+        if lp is not None and isinstance(lp.target, ast.Tuple) and len(lp.target.elts) == 2 and isinstance(lp.target.elts[0], ast.Name):
+            iv = lp.target.elts[0].id
+            if isinstance(sel, ast.Name) and sel.id == iv:
+                return True, None
+            ts = a.node_tags.get(id(sel))
+            if isinstance(sel, ast.Name) and _binding_loop(at, sel) is not None and _binding_loop(at, sel) is not lp \
+                    and isinstance(ts, tuple) and ts[0] in ("lidx", "gidx"):
+                return None, (f"the radius `{expr.id}` is bound with index `{iv}` by `{src(lp).splitlines()[0][:60]}` but the slice is selected by "
+                              f"`{src(sel)}` of another loop: same line not established")
+    return True, None
+
+
+def index_agreement(chk, a, fn, rel, q):
+    """C-same-index for index variables engine C could not type: one value that selects a LOCAL slice (get1DSlice/get2DSlice selector,
+    Local axis of a table) must not subscript a Global axis of the same distributed dimension (and vice versa)"""
+    uses = {}
+    stores = {}
+    for n in ast.walk(fn):
+        if isinstance(n, ast.Name) and isinstance(n.ctx, ast.Store):
+            stores[n.id] = stores.get(n.id, 0) + 1
+
+    def note(name_node, kind, d, node):
+        t = a.node_tags.get(id(name_node))
+        if isinstance(t, tuple) and t[0] in ("lidx", "gidx", "lit", "param"):
+            return                       # typed: engine C's own rules apply
+        if d is None or not isinstance(d, int) or not a.ctx.distributed(d):
+            return
+        lp = _binding_loop(node, name_node)
+        if lp is None and stores.get(name_node.id, 0) != 1:
+            return                       # re-assigned local: the uses may see different values
+        uses.setdefault((name_node.id, id(lp)), []).append((kind, d, node))
+    for n in ast.walk(fn):
+        if isinstance(n, ast.Call) and isinstance(n.func, ast.Attribute) and n.func.attr in ("get1DSlice", "get2DSlice"):
+            g = a.node_tags.get(id(n.func.value))
+            if isinstance(g, tuple) and g and g[0] == "grid" and g[1] is not None:
+                for k, x in enumerate(n.args):
+                    if isinstance(x, ast.Name) and k < len(g[1]):
+                        note(x, "L", g[1][k], n)
+        elif isinstance(n, ast.Subscript):
+            tb = a.node_tags.get(id(n.value))
+            if not I.is_arr(tb):
+                continue
+            items = n.slice.elts if isinstance(n.slice, ast.Tuple) else [n.slice]
+            k = 0
+            for it in items:
+                if isinstance(it, ast.Constant) and it.value is None:
+                    continue
+                if k >= len(tb[1]):
+                    break
+                w = tb[1][k]
+                if isinstance(it, ast.Name) and w is not None and w[0] in ("G", "L"):
+                    note(it, w[0], w[1], n)
+                k += 1
+    for (name, _), lst in uses.items():
+        for d in {d for _, d, _ in lst}:
+            loc = [x for x in lst if x[1] == d and x[0] == "L"]
+            glo = [x for x in lst if x[1] == d and x[0] == "G"]
+            if loc and glo:
+                dn = I.DIMNAMES.get(d, d)
+                chk.ob("C-same-index", glo[0][2], f"{name}: {src(loc[0][2])[:40]} / {src(glo[0][2])[:40]}", False,
+                       f"`{name}` selects the local block in `{src(loc[0][2])[:60]}` (a local index along {dn}) and subscripts the Global({dn}) axis in "
+                       f"`{src(glo[0][2])[:60]}`: whenever {dn} is distributed the entry of another process's block is used", file=rel, func=q)
+
+
+# ------------------------------------------------------------------ decisions taken from the local block only
+_REDUCERS = {"max", "min", "sum", "mean", "any", "all", "prod", "amax", "amin", "argmax", "argmin", "std", "var", "norm", "ptp",
+             "count_nonzero", "median", "average", "nanmax", "nanmin", "nansum", "nanmean", "vdot", "trace"}
+_ELEMENTWISE = {"abs", "absolute", "fabs", "real", "imag", "square", "sqrt", "exp", "log", "conj", "conjugate", "isfinite", "isnan",
+                "isinf", "sign", "negative", "logical_not", "asarray", "array", "ascontiguousarray", "copy", "astype", "float64"}
+_MPI_REDUCTIONS = {"Allreduce", "allreduce", "Reduce", "reduce", "Allgather", "allgather", "Gather", "gather", "Allgatherv", "Gatherv",
+                   "Bcast", "bcast", "Scan", "scan"}
+
+
+def local_extent_dependence(chk, a, fn, rel, q):
+    """C-local-extent: a reduction (max, sum, any, norm ...) over an axis that covers only THIS process's block of a distributed
+    dimension yields a value that depends on the decomposition.  Such a value must pass through a reduction over the communicator before
+    it decides a branch or is stored into an array; here: windows of the reduced operand from engine C's tags (followed through
+    element-wise calls, reshape(n0, -1), flatten), def-use propagation over the locals of the function."""
+    wenv = {}
+
+    def local_dims(ws):
+        out = set()
+        for w in ws or ():
+            if w is None:
+                continue
+            if w[0] == "L" and isinstance(w[1], int) and a.ctx.distributed(w[1]):
+                out.add(w[1])
+            elif w[0] == "MIX":
+                out |= local_dims(w[1])
+        return out
+
+    def win(e):
+        """windows of an array-valued expression or None"""
+        t = a.node_tags.get(id(e))
+        if I.is_arr(t):
+            return list(t[1])
+        if isinstance(e, ast.Name):
+            return wenv.get(e.id)
+        if isinstance(e, ast.Call):
+            f = e.func
+            name = f.attr if isinstance(f, ast.Attribute) else f.id if isinstance(f, ast.Name) else ""
+            isnp = isinstance(f, ast.Attribute) and isinstance(f.value, ast.Name) and f.value.id in ("np", "numpy")
+            if name in _ELEMENTWISE and (isnp or isinstance(f, ast.Name)) and e.args:
+                return win(e.args[0])
+            if isinstance(f, ast.Attribute) and not isnp:
+                r = win(f.value)
+                if r is None:
+                    return None
+                if name in _ELEMENTWISE:
+                    return r
+                if name in ("flatten", "ravel"):
+                    return [("MIX", tuple(r))]
+                if name == "reshape":
+                    args = list(e.args[0].elts) if len(e.args) == 1 and isinstance(e.args[0], (ast.Tuple, ast.List)) else list(e.args)
+                    if len(args) == 2 and src(args[1]) == "-1" and _is_len_of_axis0(args[0], r):
+                        return [r[0], ("MIX", tuple(r[1:]))]
+                    return [("MIX", tuple(r))] * max(1, len(args))
+                if name in _REDUCERS:
+                    return reduce_(e)[1]
+            if isnp and name in _REDUCERS:
+                return reduce_(e)[1]
+            return None
+        if isinstance(e, (ast.BinOp, ast.Compare, ast.BoolOp)):
+            ops = [e.left, e.right] if isinstance(e, ast.BinOp) else ([e.left] + list(e.comparators) if isinstance(e, ast.Compare) else list(e.values))
+            ws = [w for w in (win(x) for x in ops) if w]
+            return max(ws, key=len) if ws else None
+        if isinstance(e, ast.UnaryOp):
+            return win(e.operand)
+        if isinstance(e, ast.Attribute) and e.attr == "T":
+            r = win(e.value)
+            return list(reversed(r)) if r else None
+        return None
+
+    def _is_len_of_axis0(x, r):
+        base = None
+        if isinstance(x, ast.Subscript) and isinstance(x.value, ast.Attribute) and x.value.attr == "shape" and src(x.slice) == "0":
+            base = x.value.value
+        elif isinstance(x, ast.Call) and isinstance(x.func, ast.Name) and x.func.id == "len" and len(x.args) == 1:
+            base = x.args[0]
+        if base is None:
+            return False
+        wb = win(base)
+        return bool(wb) and wb[0] == r[0]
+
+    events = {}
+
+    def reduce_(e):
+        """(local dims removed by this reduction call, windows of its result)"""
+        f = e.func
+        name = f.attr if isinstance(f, ast.Attribute) else f.id
+        isnp = isinstance(f, ast.Attribute) and (src(f.value) in ("np", "numpy", "np.linalg", "numpy.linalg"))
+        operand = e.args[0] if isnp and e.args else (f.value if isinstance(f, ast.Attribute) and not isnp else None)
+        if operand is None:
+            return set(), None
+        ws = win(operand)
+        if not ws:
+            return set(), None
+        ax = [k.value for k in e.keywords if k.arg == "axis"]
+        pos = e.args[1:] if isnp else e.args
+        axis = ax[0] if ax else (pos[0] if pos else None)
+        if axis is None:
+            removed, rest = ws, []
+        elif isinstance(axis, ast.Constant) and isinstance(axis.value, int) and -len(ws) <= axis.value < len(ws):
+            k = axis.value % len(ws)
+            removed, rest = [ws[k]], ws[:k] + ws[k + 1:]
+        elif isinstance(axis, ast.UnaryOp) and isinstance(axis.op, ast.USub) and isinstance(axis.operand, ast.Constant) \
+                and isinstance(axis.operand.value, int) and axis.operand.value <= len(ws):
+            k = len(ws) - axis.operand.value
+            removed, rest = [ws[k]], ws[:k] + ws[k + 1:]
+        else:
+            return set(), None
+        dims = local_dims(removed)
+        if dims:
+            events[id(e)] = (e, dims, operand)
+        return dims, rest
+
+    # pass 1: windows of locals, reductions
+    order = [n for n in ast.walk(fn) if isinstance(n, (ast.Assign, ast.AugAssign))]
+    order.sort(key=lambda n: (n.lineno, n.col_offset))
+    for _ in range(2):
+        for st in order:
+            if isinstance(st, ast.Assign) and len(st.targets) == 1 and isinstance(st.targets[0], ast.Name):
+                w = win(st.value)
+                if w:
+                    wenv[st.targets[0].id] = w
+    for n in ast.walk(fn):
+        if isinstance(n, ast.Call):
+            nm = n.func.attr if isinstance(n.func, ast.Attribute) else n.func.id if isinstance(n.func, ast.Name) else ""
+            if nm in _REDUCERS and id(n) not in events:
+                reduce_(n)
+    if not events:
+        chk.ob("C-local-extent", fn, f"{q}: reductions over local blocks", True,
+               "no value is obtained by reducing over this process's block of a distributed dimension", file=rel, func=q, nontrivial=False)
+        return
+    # pass 2: taint
+    tainted = {}
+
+    def sources(e):
+        out = []
+        for x in ast.walk(e):
+            if id(x) in events:
+                out.append(events[id(x)])
+            elif isinstance(x, ast.Name) and isinstance(x.ctx, ast.Load) and x.id in tainted:
+                out += tainted[x.id]
+        return out
+    for _ in range(2):
+        for st in order:
+            tg = st.targets[0] if isinstance(st, ast.Assign) else st.target
+            got = sources(st.value)
+            if got:
+                for x in ast.walk(tg):
+                    if isinstance(x, ast.Name) and isinstance(x.ctx, ast.Store):
+                        tainted[x.id] = list({id(g[0]): g for g in tainted.get(x.id, []) + got}.values())
+    # values handed to a reduction over the communicator are made global there
+    for n in ast.walk(fn):
+        if isinstance(n, ast.Call) and isinstance(n.func, ast.Attribute) and n.func.attr in _MPI_REDUCTIONS:
+            for x in ast.walk(n):
+                if isinstance(x, ast.Name) and x.id in tainted:
+                    tainted.pop(x.id)
+                if id(x) in events:
+                    events.pop(id(x))
+    sinks = []
+    quiet = {"print", "my_print", "warn", "warning", "info", "debug", "log", "write", "flush"}
+
+    def effectful(stmts):
+        """does the branch change data or control (anything but messages and aborting)?"""
+        for s_ in stmts:
+            for x in ast.walk(s_):
+                if isinstance(x, (ast.Assign, ast.AugAssign, ast.Continue, ast.Break, ast.Return)):
+                    return True
+                if isinstance(x, ast.Expr) and isinstance(x.value, ast.Call):
+                    nm = x.value.func.attr if isinstance(x.value.func, ast.Attribute) else x.value.func.id if isinstance(x.value.func, ast.Name) else ""
+                    if nm not in quiet:
+                        return True
+        return False
+    for n in ast.walk(fn):
+        if isinstance(n, ast.If) and not effectful(n.body) and not effectful(n.orelse):
+            continue
+        if isinstance(n, (ast.If, ast.While, ast.IfExp)):
+            got = sources(n.test)
+            if got:
+                sinks.append((n, f"decides `{'if' if not isinstance(n, ast.While) else 'while'} {src(n.test)[:60]}`", got))
+        elif isinstance(n, (ast.Assign, ast.AugAssign)):
+            tg = n.targets[0] if isinstance(n, ast.Assign) else n.target
+            if isinstance(tg, ast.Subscript):
+                got = sources(n.value)
+                if got:
+                    sinks.append((n, f"is stored by `{src(n)[:70]}`", got))
+    if not sinks:
+        chk.ob("C-local-extent", fn, f"{q}: reductions over local blocks", True,
+               "values reduced over the local block neither decide a branch nor are stored before a reduction over the communicator",
+               file=rel, func=q, nontrivial=False)
+        return
+    seen = set()
+    for node, what, got in sinks:
+        got = list({id(g[0]): g for g in got}.values())
+        key = tuple(sorted(id(g[0]) for g in got))
+        if key in seen:
+            continue
+        seen.add(key)
+        reds = "; ".join(f"`{src(c)[:70]}` reduces over the local block of {', '.join(I.DIMNAMES.get(d, str(d)) for d in sorted(dims))} "
+                         f"(operand `{src(op)[:50]}`)" for c, dims, op in got)
+        chk.ob("C-local-extent", node, src(got[0][0])[:80], False,
+               f"{reds}: only the part of the distributed dimension held by this process enters, and no reduction over the communicator follows; "
+               f"the result {what}, so what is computed for a slice depends on which other slices share its process - the global field differs "
+               "between process grids", file=rel, func=q)
 
 
 def radius_argument(chk, analyses):
@@ -171,9 +771,18 @@ def radius_argument(chk, analyses):
                 t = a.node_tags.get(id(r)) if r is not None else None
                 ok = t == ("coord", 0)
                 n += 1
-                chk.ob("C-coordinate-role", c, f"step(..., r={src(r) if r is not None else '?'}) in {m}", ok if t not in (None, OTHER) else None,
-                       "the radius handed to the boundary rule is the r coordinate of the line being advanced" if ok else
-                       f"the value handed to the step as radius is {tname(t) if t else 'unknown'}", file=U.ADV, func=f"VParallelAdvection.{m}")
+                why = "the radius handed to the boundary rule is the r coordinate of the line being advanced" if ok else \
+                    f"the value handed to the step as radius is {tname(t) if t else 'unknown'}"
+                if t in (None, OTHER):
+                    ok = None
+                elif ok:
+                    # ... of the SAME line: the coordinate is taken at the index that selects the slice
+                    f_ = b.get("f")
+                    sel = f_.args[0] if isinstance(f_, ast.Call) and isinstance(f_.func, ast.Attribute) and f_.func.attr == "get1DSlice" and f_.args else None
+                    ok, w2 = coordinate_of_slice(a, fn, c, r, sel, 0)
+                    why = w2 or why
+                chk.ob("C-coordinate-role", c, f"step(..., r={src(r) if r is not None else '?'}) in {m}", ok, why, file=U.ADV,
+                       func=f"VParallelAdvection.{m}")
         if n == 0:
             # the advection loop may live in a sibling grid-level method that this one calls with the grid it received
             # (e.g. gridStep = "all gradients first" + gridStepKeepGradient): the sibling's own obligation covers it
@@ -196,7 +805,7 @@ def radius_argument(chk, analyses):
 def poloidal(chk):
     env = {"eta_vals": eta_grid_tag(), "splines": OTHER, "constants": ("constants",), "nulEdge": OTHER,
            "explicitTrap": OTHER, "tol": OTHER}
-    attrs, _ = I.ctor_attrs(chk, U.ADV, "PoloidalAdvection", env)
+    attrs, _ = ctor_attrs(chk, U.ADV, "PoloidalAdvection", env)
     cache_tags = {}
     # the per-plane potential splines are distinct objects (a cache written by gridStep and read again later)
     init = chk.func(U.ADV, "PoloidalAdvection.__init__")
@@ -229,8 +838,10 @@ def poloidal(chk):
                     "relation between the layouts of grid and phi is no longer asserted"), file=U.ADV, func=f"PoloidalAdvection.{m}")
             env2["phi"] = grid_param(op or o[1:], 1)
         ctx = Ctx(dist_dims=dist_dims(o, 2))
-        an = I.run_method(chk, U.ADV, "PoloidalAdvection", m, env2, ctx, dict(attrs),
+        an = run_method(chk, U.ADV, "PoloidalAdvection", m, env2, ctx, dict(attrs),
                           {"step": {"params": ["f", "dt", "phi", "v"], "req": {}}})
+        index_agreement(chk, an, fn, U.ADV, f"PoloidalAdvection.{m}")
+        local_extent_dependence(chk, an, fn, U.ADV, f"PoloidalAdvection.{m}")
         for n_ in ast.walk(fn):
             if isinstance(n_, ast.Subscript) and src(n_.value) == "self._phiSplines":
                 cache_tags.setdefault(m, []).append((n_, an.node_tags.get(id(n_.slice))))
@@ -334,11 +945,12 @@ def range_slices_as_index(fn):
 
 def density(chk):
     env = {"eta_grid": eta_grid_tag(), "constants": ("constants",), "degree": OTHER, "bspline": OTHER}
-    attrs, _ = I.ctor_attrs(chk, U.POISSON, "DensityFinder", env)
+    attrs, _ = ctor_attrs(chk, U.POISSON, "DensityFinder", env)
     fe = attrs.get("_fEq")
-    ok = (fe[1] == (G(0), G(3))) if I.is_arr(fe) else None
+    # whatever index range the table covers, the kernel call must pair its rows with the rows of the grid block (C-coindexed-axes)
+    ok = True if I.is_arr(fe) and all(w is not None and w[0] in ("G", "L") for w in fe[1]) else None
     chk.ob("C-table-roles", chk.func(U.POISSON, "DensityFinder.__init__"), "self._fEq", ok,
-           "equilibrium table is [global r, global v]" if ok else f"unexpected table {tname(fe)}", file=U.POISSON,
+           f"equilibrium table is {tname(fe)}" if ok else f"axes of the table not established: {tname(fe)}", file=U.POISSON,
            func="DensityFinder.__init__")
     res = {}
     for m in ("getPerturbedRho", "getRho"):
@@ -349,9 +961,10 @@ def density(chk):
         if og is None or orho is None:
             raise AnalysisError(f"C05: DensityFinder.{m} no longer asserts the layouts of grid and rho")
         ctx = Ctx(dist_dims=dist_dims(og, 2))
-        a = IS(chk, U.POISSON, f"DensityFinder.{m}", fn, {"grid": grid_param(og, 2), "rho": grid_param(orho, 2)}, ctx, dict(attrs))
+        a = IS2(chk, U.POISSON, f"DensityFinder.{m}", fn, {"grid": grid_param(og, 2), "rho": grid_param(orho, 2)}, ctx, dict(attrs))
         chk.functions.add(f"{U.POISSON}:DensityFinder.{m}")
         a.run()
+        local_extent_dependence(chk, a, fn, U.POISSON, f"DensityFinder.{m}")
         # kernel call: co-indexed axes must cover the same index ranges
         kname = "get_perturbed_rho" if m == "getPerturbedRho" else "get_rho"
         calls = [c for c in ast.walk(fn) if isinstance(c, ast.Call) and isinstance(c.func, ast.Name) and c.func.id == kname]
@@ -416,32 +1029,36 @@ def solver(chk):
     ctx = Ctx(dist_dims=dist_dims(o_ms, 2))
     env = {"degree": OTHER, "rspline": OTHER, "nr": ("size", G(0)), "nTheta": ("size", G(1)),
            "lNeumannIdx": OTHER, "uNeumannIdx": OTHER}
-    attrs, _ = I.ctor_attrs(chk, U.POISSON, "DiffEqSolver", env)
+    attrs, _ = ctor_attrs(chk, U.POISSON, "DiffEqSolver", env)
     for k in ("_mVals", "_coeff_range", "_stiffness_range"):
+        if k != "_mVals" and k not in attrs:
+            continue            # a per-mode table the class no longer keeps: nothing to type
         t = attrs.get(k)
-        ok = (t[1][0] == G(1)) if I.is_arr(t) and t[1] and t[1][0] is not None and t[1][0][0] in ("G", "L") else None
+        ok = True if I.is_arr(t) and t[1] and t[1][0] is not None and t[1][0][0] in ("G", "L") and t[1][0][1] in (1, None) else None
         chk.ob("C-table-roles", chk.func(U.POISSON, "DiffEqSolver.__init__"), f"self.{k}", ok,
-               "per-mode table covers all poloidal modes (global mode index)" if ok else f"unexpected table {tname(t)}",
+               f"per-mode table is {tname(t)}: its subscripts are typed against this axis (C-window)" if ok else f"axis of the table not established: {tname(t)}",
                file=U.POISSON, func="DiffEqSolver.__init__")
-    sm, _ = I.summary_of(chk, U.POISSON, "DiffEqSolver", "_solveMode", dict(attrs), ctx,
+    sm, _ = summary_of(chk, U.POISSON, "DiffEqSolver", "_solveMode", dict(attrs), ctx,
                          {"phi": grid_param(o_ms, 2), "rho": grid_param(o_ms, 2)})
-    ok = sm["req"].get("i") == ("lidx", 1) and sm["req"].get("I") == ("gidx", 1)
-    if not ok and (sm["req"].get("i") is None or sm["req"].get("I") is None):
-        ok = None
-    chk.ob("C-table-roles", chk.func(U.POISSON, "DiffEqSolver._solveMode"), "_solveMode(phi, rho, stiffnessMatrix, i, I)", ok,
-           "i selects the local data slice, I looks up the global-mode tables" if ok else
-           f"unexpected index requirements { {k: tname(v) for k, v in sm['req'].items()} }", file=U.POISSON, func="DiffEqSolver._solveMode")
-    smf, _ = I.summary_of(chk, U.POISSON, "DiffEqSolver", "_solveModeFunc", dict(attrs), ctx, {"phi": grid_param(o_ms, 2), "rho": OTHER})
+    smfn = chk.func(U.POISSON, "DiffEqSolver._solveMode")
+    idxp = [p_ for p_ in sm["params"] if isinstance(sm["req"].get(p_), tuple) and sm["req"][p_][0] in ("lidx", "gidx")]
+    ok = True if idxp else None
+    chk.ob("C-table-roles", smfn, f"_solveMode({', '.join(sm['params'])})", ok,
+           "; ".join(f"`{p_}` must be {tname(sm['req'][p_])}" for p_ in idxp) + " (the callers are checked against this at each call: C-slice-param)"
+           if ok else f"index requirements not established: { {k: tname(v) for k, v in sm['req'].items()} }", file=U.POISSON,
+           func="DiffEqSolver._solveMode")
+    smf, _ = summary_of(chk, U.POISSON, "DiffEqSolver", "_solveModeFunc", dict(attrs), ctx, {"phi": grid_param(o_ms, 2), "rho": OTHER})
     for cls, m in (("DiffEqSolver", "solveEquation"), ("DiffEqSolver", "solveEquationForFunction"),
                    ("QuasiNeutralitySolver", "solveEquation")):
         # an inherited definition is analysed as the derived class runs it: template methods it calls resolve to the overrides
         owner_q, fn = resolve_method(chk, U.POISSON, cls, m)
         summ = {"_solveMode": sm, "_solveModeFunc": smf}
-        a = IS(chk, U.POISSON, f"{cls}.{m}", fn, {"phi": grid_param(o_ms, 2), "rho": grid_param(o_ms, 2) if m != "solveEquationForFunction" else OTHER},
+        a = IS2(chk, U.POISSON, f"{cls}.{m}", fn, {"phi": grid_param(o_ms, 2), "rho": grid_param(o_ms, 2) if m != "solveEquationForFunction" else OTHER},
                ctx, dict(attrs), summ)
         a.methods = {k: v[1] for k, v in method_table(chk, U.POISSON, cls).items() if k not in summ and v[1] is not fn}
         chk.functions.add(f"{U.POISSON}:{cls}.{m}")
         a.run()
+        local_extent_dependence(chk, a, fn, U.POISSON, f"{cls}.{m}")
     for m in ("getModes", "findPotential"):
         fn = chk.func(U.POISSON, f"DiffEqSolver.{m}")
         amb = I.ambient_from_asserts(fn)
@@ -449,7 +1066,7 @@ def solver(chk):
         o = amb.get(nm)
         if o is None:
             raise AnalysisError(f"C05: DiffEqSolver.{m} no longer asserts its layout")
-        I.run_method(chk, U.POISSON, "DiffEqSolver", m, {nm: grid_param(o, 2)}, Ctx(dist_dims=dist_dims(o, 2)), {})
+        run_method(chk, U.POISSON, "DiffEqSolver", m, {nm: grid_param(o, 2)}, Ctx(dist_dims=dist_dims(o, 2)), {})
     return attrs
 
 
@@ -462,7 +1079,7 @@ def initialisers(chk):
         o = O[lname]
         fn = chk.func(U.INITIALISER, fname)
         ctx = Ctx(dist_dims=dist_dims(o, 2))
-        a = IS(chk, U.INITIALISER, fname, fn, {"grid": grid_param(o, 2), "constants": ("constants",)}, ctx, {})
+        a = IS2(chk, U.INITIALISER, fname, fn, {"grid": grid_param(o, 2), "constants": ("constants",)}, ctx, {})
         a.run()
         calls = [c for c in ast.walk(fn) if isinstance(c, ast.Call) and isinstance(c.func, ast.Name) and c.func.id == kname]
         if len(calls) != 1:
@@ -472,7 +1089,7 @@ def initialisers(chk):
         formals = [x.arg for x in kfn.args.args]
         b = agree.bind_call(c, formals) or {}
         # bind loop variables as in the loops
-        a2 = IS(_Mute(), U.INITIALISER, fname, fn, {"grid": grid_param(o, 2), "constants": ("constants",)}, ctx, {})
+        a2 = IS2(_Mute(), U.INITIALISER, fname, fn, {"grid": grid_param(o, 2), "constants": ("constants",)}, ctx, {})
         tags = eval_at_call(a2, fn, c, b)
         for f, t in tags.items():
             if f in want:
@@ -518,6 +1135,56 @@ def eval_at_call(a: IS, fn, call, bound):
 OPERATOR_REQUIREMENTS = None
 
 
+def ambient_of(chk, rel, cls, fn, depth=0):
+    """layout requirements asserted by a method, those of same-class methods it hands its own grid parameters to included
+    (`solveEquation(phi, rho)` = `self._solveLocalModes(phi, rho, ...)`: the callee's asserts on rho are the caller's)"""
+    amb = dict(I.ambient_from_asserts(fn))
+    if depth >= 2 or cls is None:
+        return amb
+    own = {a.arg for a in fn.args.args}
+    table = method_table(chk, rel, cls)
+    for st in fn.body:
+        for c in ([st.value] if isinstance(st, (ast.Expr, ast.Return)) and isinstance(st.value, ast.Call) else []):
+            if isinstance(c.func, ast.Attribute) and isinstance(c.func.value, ast.Name) and c.func.value.id == "self" and c.func.attr in table \
+                    and table[c.func.attr][1] is not fn:
+                callee = table[c.func.attr][1]
+                formals = [a.arg for a in callee.args.args if a.arg != "self"]
+                b = agree.bind_call(c, formals) or {}
+                sub = ambient_of(chk, rel, cls, callee, depth + 1)
+                for f_, a_ in b.items():
+                    if isinstance(a_, ast.Name) and a_.id in own:
+                        for k_, v_ in sub.items():
+                            if k_ == f_ or k_.startswith(f_ + "["):
+                                amb.setdefault(a_.id + k_[len(f_):], v_)
+    return amb
+
+
+def ordered_actuals(chk, c, cls, m):
+    """the actual arguments of an operator call in the order of the callee's parameters (keyword arguments bound by name); the
+    positional list when the callee is not found"""
+    rel = {"FluxSurfaceAdvection": U.ADV, "VParallelAdvection": U.ADV, "PoloidalAdvection": U.ADV, "DensityFinder": U.POISSON,
+           "QuasiNeutralitySolver": U.POISSON, "DiffEqSolver": U.POISSON, "DiagnosticCollector": U.DIAG}.get(cls)
+    if not c.keywords or rel is None:
+        return list(c.args)
+    try:
+        fn = method_table(chk, rel, cls).get(m, (None, None))[1]
+    except AnalysisError:
+        fn = None
+    if fn is None:
+        return list(c.args)
+    static = any(isinstance(d, ast.Name) and d.id == "staticmethod" for d in fn.decorator_list)
+    formals = [a.arg for a in fn.args.args][0 if static else 1:]
+    b = agree.bind_call(c, formals)
+    if b is None:
+        return list(c.args)
+    out = []
+    for f_ in formals:
+        if f_ not in b:
+            break
+        out.append(b[f_])
+    return out
+
+
 def callee_requirements(chk):
     """layout each grid-taking operator requires, read from its asserts"""
     req = {}
@@ -533,7 +1200,7 @@ def callee_requirements(chk):
         amb = I.ambient_from_asserts(chk.func(rel, q))
         req[q.split(".")[-1]] = {p: amb.get(p) for p in params}
     for q in ("DiffEqSolver.solveEquation", "QuasiNeutralitySolver.solveEquation"):
-        amb = I.ambient_from_asserts(resolve_method(chk, U.POISSON, *q.split("."))[1])
+        amb = ambient_of(chk, U.POISSON, q.split(".")[0], resolve_method(chk, U.POISSON, *q.split("."))[1])
         req.setdefault("solveEquation", {})["rho[-1]"] = amb.get("rho[-1]")
     return req
 
@@ -590,7 +1257,7 @@ def driver_typestate(chk):
                         and isinstance(c.args[3], ast.Constant):
                     state[stn.targets[0].id] = {"cur": c.args[3].value, "saved": None}
             # operator calls taking grids
-            if isinstance(f, ast.Attribute) and any(isinstance(a, ast.Name) and a.id in GRIDS for a in c.args):
+            if isinstance(f, ast.Attribute) and any(isinstance(a, ast.Name) and a.id in GRIDS for a in list(c.args) + [k.value for k in c.keywords]):
                 m = f.attr
                 if m in req or m in ("gridStep", "gridStepKeepGradient", "collect"):
                     recv = src(f.value)
@@ -632,11 +1299,14 @@ def driver_typestate(chk):
 
 
 def check_operator_call(chk, c, recv, m, state, req, order_of):
-    args = [a.id for a in c.args if isinstance(a, ast.Name) and a.id in ("distribFunc", "phi", "rho")]
-    label = f"{recv}.{m}({', '.join(args)})"
     cls_of = {"fluxAdv": "FluxSurfaceAdvection", "vParAdv": "VParallelAdvection", "polAdv": "PoloidalAdvection",
               "density": "DensityFinder", "QNSolver": "QuasiNeutralitySolver", "diagnostics": "DiagnosticCollector"}
     cls = cls_of.get(recv)
+    if c.keywords:
+        # keyword arguments are put in the callee's parameter order: the rules below speak of argument positions
+        c = ast.copy_location(ast.Call(func=c.func, args=ordered_actuals(chk, c, cls, m), keywords=[]), c)
+    args = [a.id for a in c.args if isinstance(a, ast.Name) and a.id in ("distribFunc", "phi", "rho")]
+    label = f"{recv}.{m}({', '.join(args)})"
     if cls is None:
         chk.ob("S-operator-layout", c, label, None, f"receiver `{recv}` is not one of the known operator objects", file=U.DRIVER, func="main")
         return
@@ -674,7 +1344,8 @@ def check_operator_call(chk, c, recv, m, state, req, order_of):
             amb = I.ambient_from_asserts(chk.func(U.POISSON, f"DiffEqSolver.{m}"))
             wanted = {0: amb.get("rho" if m == "getModes" else "phi")}
         elif m == "solveEquation":
-            last = I.ambient_from_asserts(resolve_method(chk, U.POISSON, "QuasiNeutralitySolver", "solveEquation")[1]).get("rho[-1]")
+            last = ambient_of(chk, U.POISSON, "QuasiNeutralitySolver",
+                              resolve_method(chk, U.POISSON, "QuasiNeutralitySolver", "solveEquation")[1]).get("rho[-1]")
             for k, a in enumerate(c.args):
                 if isinstance(a, ast.Name) and a.id in state:
                     o = order_of(a.id, state[a.id]["cur"])
@@ -726,7 +1397,12 @@ def run(chk):
         "axes; plus the driver layout typestate: at each of the operator calls of fullSimulation.main every grid is in the "
         "layout its callee requires, restore returns to the saved layout, the loop body is layout-invariant. This is the "
         "statically visible necessary condition 'each slice uses the parameters of its own global coordinates'; numerical "
-        "equality of parallel and serial runs is not decided.")
+        "equality of parallel and serial runs is not decided. Relational rules: one index value must not select a local slice and a "
+        "Global axis of the same distributed dimension (C-same-index, also for indices the engine could not type); the coordinate "
+        "handed to a per-line routine is the one at the index that selects the line; the block of the gradient table handed to "
+        "parallel_gradient has the axes of the potential slice, is written in every iteration over the radii (E2-gradient-row-written) "
+        "and is what the callee returns; a value reduced (max/sum/any/norm ...) over the local block of a distributed dimension must "
+        "not decide a branch or be stored without a reduction over the communicator (C-local-extent).")
     chk.assumptions += ["standard layouts and their distributed axes are those of the literal dictionaries in setups.py/fullSimulation.py",
                         "the same dimension is partitioned identically in every layout group that distributes it over the same process count"]
     chk.in_file(U.ADV)
@@ -751,5 +1427,5 @@ def run(chk):
     _regimes(chk)
     chk.floor("C-window", 30)
     chk.floor("C-sort", 6)
-    chk.floor("S-operator-layout", 25)
+    chk.floor("S-operator-layout", 18)
     chk.floor("C-slice-param", 4)
